@@ -21,7 +21,7 @@ class Check(CheckBase):
                    'vflib/refimpl.py decodes the format correctly (cross-checked by C14)']
     case_timeout = 300
     PROPS = ('C02',)
-    MIX = {'snap': 5, 'repeat': 1, 'del': 3, 'clean': 2, 'group': 2}
+    MIX = {'snap': 5, 'repeat': 2, 'del': 3, 'clean': 2, 'group': 2, 'gclean': 1, 'gdel': 1, 'churn': 1}
     AUDITS = {'integrity', 'restore', 'foreign'}
 
     def generate(self):
@@ -37,6 +37,7 @@ class Check(CheckBase):
                 'flavour': 'async' if i % 2 else 'sync',
                 'nops': r.randint(6, 14) if self.tier == 'quick' else r.randint(6, 40),
                 'concurrent': r.choice([1, 2, 3, 5]),
+                'reuse_repos': i % 2 == 1 or i % 8 == 0,
             })
         return cases
 
@@ -54,6 +55,10 @@ class Check(CheckBase):
                          f'{c.get("histories_with_shared_delete", 0)} below floor')
         if c.get('snapshots_restored', 0) < (40 if q else 1000):
             unmet.append('too few real restores')
+        if c.get('gc_with_garbled_snapshot_read', 0) < (15 if q else 300):
+            unmet.append('too few delete/clean runs with a garbled snapshot read')
+        if c.get('histories_long_lived_repo', 0) < (10 if q else 300):
+            unmet.append('too few histories with long-lived Repository objects')
         return unmet
 
     def run_case(self, case):
@@ -61,7 +66,8 @@ class Check(CheckBase):
         r = random.Random(case['seed'])
         enc = case['settings'].get('encryption') is not None
         graph = hist.gen_graph(r, enc)
-        world = hist.World(case['seed'], case['settings'], case['flavour'], case['concurrent'], graph)
+        world = hist.World(case['seed'], case['settings'], case['flavour'], case['concurrent'], graph,
+                           reuse_repos=case.get('reuse_repos', False))
 
         async def go():
             await world.setup()
@@ -79,13 +85,16 @@ class Check(CheckBase):
             world.close()
         counters = dict(world.counters)
         counters['histories'] = 1
+        if case.get('reuse_repos'):
+            counters['histories_long_lived_repo'] = 1
         if counters.get('deletes_sharing_chunks_with_survivor'):
             counters['histories_with_shared_delete'] = 1
         mine = world.take_findings(self.PROPS)
         others = [f for f in world.findings if f['prop'] not in self.PROPS]
         counters['findings_for_other_properties'] = len(others)
         cls = [f"{hist.graph_class(graph)}|{'enc' if enc else 'plain'}|{case['flavour']}|"
-               f"{case['settings']['chunking']['max_length']}|shared-del={bool(counters.get('deletes_sharing_chunks_with_survivor'))}"]
+               f"{case['settings']['chunking']['max_length']}|shared-del={bool(counters.get('deletes_sharing_chunks_with_survivor'))}"
+               f"|{'long-lived' if case.get('reuse_repos') else 'per-command'}-repo"]
         viol = [{'what': f['what'], 'mechanism': None, 'witness': dict(f['witness'], graph=graph, settings=case['settings'])}
                 for f in mine[:4]]
         return {'verdict': 'violated' if viol else 'held', 'classes': cls, 'counters': counters, 'violations': viol,
